@@ -97,6 +97,9 @@ structure Task where
   hexc : ExcVal := .none           -- TaskHandle._exception
   outcome : Option Outcome := none -- asyncio task result once done
   doneCbRun : Bool := false        -- ghost: `task_done` has run
+  nNative : Nat := 0               -- ghost: `Task.cancel()` calls not made by a cancel scope
+  nAnyio : Nat := 0                -- ghost: `Task.cancel()` calls made by scope deliveries
+  nUncancel : Nat := 0             -- ghost: effective `uncancel()` calls (scope exits and user)
   deriving Repr, Inhabited
 
 structure Scope where
@@ -116,6 +119,9 @@ structure Scope where
   caught : Bool := false
   byDeadline : Bool := false       -- ghost: cancel() was called by `_timeout`
   cancelTime : Nat := 0            -- ghost: clock when cancel() was called
+  /-- the scope itself followed by its ancestors, fixed when the scope is entered: the
+  `_parent_scope` pointers the code walks never change after `__enter__` -/
+  chain : List Nat := []
   deriving Repr, Inhabited
 
 structure Group where
